@@ -20,7 +20,9 @@ from props.c05 import parse_gopher
 VISIBLE = ["alpha.txt", "Beta.txt", "gamma", "z last.txt", "10.txt", "9.txt", "a.b.c", "UPPER", "data.tar.gz", "caf\xe9.txt", "~tilde",
            "lib64", "binary", "xcap", "etcetera", "q.askew2", "sub", "sub2", "0", "_under", "a b", "AB", "aB", "Ab",
            # a backslash is an ordinary character of a name (only `.\\` and `\\\\` are refused, as sequences)
-           "back\\slash.txt", "C:\\AUTOEXEC.BAT", "sub\\dir", "x\\"]
+           "back\\slash.txt", "C:\\AUTOEXEC.BAT", "sub\\dir", "x\\",
+           # pieces of the cache file's own name (.cache.pygopherd.dir) are names like any other
+           "dir", "cache", "d", "py", "pygopherd.dir", "cache.pygopherd.dir"]
 IGNORED = ["backup~", "lost+found", "lib", "bin", "etc", "dev", "veronica.ctl", "robots.txt", "nohup.out", "x.abstract", "y.keyboards",
            "q.ask", "z.3d", "q.askew", "tmp~", "xcap", "a~\n"]
 DOT = [".hidden", ".Links", ".names", ".renames", ".forward", ".cache.pygopherd.dir.old", ".message", ".names~", ".Links~"]
